@@ -9,6 +9,7 @@ import inspect
 import numpy as np
 
 from tvmon import core, gen, ref, sanit
+from tvmon import docsig
 from tvmon.ref import EPS, LD
 from tvmon.interpose import installed
 
@@ -39,7 +40,7 @@ def gen_cases(seed, tier):
     rng = np.random.default_rng([seed, 104])
     q = tier == 'quick'
     fams = gen.FAMILIES + ['zero-core', 'huge', 'tiny', 'long', 'spread-huge',
-        'spread-tiny', 'gauge', 'extreme-bond']
+        'spread-tiny', 'gauge', 'extreme-bond', 'sparse-small']
     out = []
     for j in range(600 if q else 15000):
         out.append({'seed': int(rng.integers(1 << 62)),
@@ -178,7 +179,7 @@ _rng = np.random.default_rng(12345)
 
 
 def make_orth(orig):
-    sig = inspect.signature(orig)
+    sig = docsig.sig('orthogonalize')
 
     def orthogonalize(*args, **kw):
         ba = sig.bind(*args, **kw)
@@ -238,7 +239,8 @@ def judge_step(ctx, left, Y0, Yarg, i, inplace, Z, rng):
 
 def make_step(left):
     def make(orig):
-        sig = inspect.signature(orig)
+        sig = docsig.sig('orthogonalize_left' if left else
+            'orthogonalize_right')
 
         def step(*args, **kw):
             ba = sig.bind(*args, **kw)
@@ -281,6 +283,21 @@ def make_input(rng, fam):
         sgn = 1 if fam == 'spread-huge' else -1
         for G in Y:
             G *= 2.0 ** (sgn * int(rng.integers(90, 131)))
+        return Y, {'family': fam, 'n': n, 'r': r}
+    if fam == 'sparse-small':
+        # sparse cores (exact zeros: zero slices, block structure of a TT sum,
+        # one-hot entries) whose non-zero entries are all well below 0.5
+        d = int(rng.integers(4, 13))
+        n = [int(rng.integers(2, 4)) for _ in range(d)]
+        r = gen.rand_ranks(rng, d, 3)
+        Y = gen.cores(rng, n, r, 'normal')
+        sc = float(10.0 ** rng.uniform(-4, -1))
+        for G in Y:
+            G *= sc / max(1e-300, np.abs(G).max()) * 0.4
+            mask = rng.random(G.shape) < 0.5
+            if np.all(mask):
+                mask.flat[0] = False
+            G[mask] = 0.
         return Y, {'family': fam, 'n': n, 'r': r}
     if fam == 'extreme-bond':
         # a rank-1 bond next to a core whose entries have subnormal squares
